@@ -18,7 +18,7 @@ def make_arg(spec):
         return spec[1]
     if kind in ("text", "ascii"):
         return build.expand_text(spec)
-    if kind in ("hex", "rand", "rep", "zero"):
+    if kind in ("hex", "rand", "rep", "zero", "echo"):
         return build.expand(spec)
     if kind == "bytearray":
         return bytearray(bytes.fromhex(spec[1]))
@@ -57,7 +57,7 @@ def is_text_arg(spec):
 
 
 def is_bytes_arg(spec):
-    return spec[0] in ("hex", "rand", "rep", "zero")
+    return spec[0] in ("hex", "rand", "rep", "zero", "echo")
 
 
 def expected_of(call, negotiated):
@@ -311,6 +311,15 @@ class C03(Prop):
                                 yield {"calls": [{"m": kind, "arg": (["ascii", n, n + i] if kind == "send_text" else
                                                                      ["rep", n, n + i])} for i, n in enumerate(seq)],
                                        "keys": FIXED_KEYS[:1] * 6, "deflate": cfg}
+            # unequal windows: what the client may refer back to is bounded by ITS window (client_max_window_bits), inside
+            # a message and across messages - payloads that repeat further back than the smaller window
+            for sb, cb in ((15, 9), (9, 15), (12, 10), (10, 12), (15, 8)):
+                for cnct in (False, True):
+                    cfg = {"sb": sb, "cb": cb, "snct": False, "cnct": cnct}
+                    yield {"calls": [{"m": "send_binary", "arg": ["echo", 9000, sb, 3000]},
+                                     {"m": "send_text", "arg": ["ascii", 3000, cb]}, {"m": "send_text", "arg": ["ascii", 3000, cb]},
+                                     {"m": "send_binary", "arg": ["echo", 70000, cb, 20000]}],
+                           "keys": FIXED_KEYS[:1] * 6, "deflate": cfg}
         from harness.runner import with_debug_log
         def failing_writes():
             for how in SEND_FAULTS:
